@@ -175,6 +175,7 @@ type recWriter struct {
 	buf    bytes.Buffer
 	gate   chan struct{} // nil: no gate
 	atGate chan struct{}
+	park   func() // schedule exploration (sched.go): called once, with half of the first write delivered
 	writes int
 }
 
@@ -200,6 +201,14 @@ func (w *recWriter) Write(p []byte) (int, error) {
 		w.buf.Write(p[half:])
 		return len(p), nil
 	}
+	if w.park != nil && w.writes == 0 && len(p) > 1 {
+		w.writes++
+		half := len(p) / 2
+		w.buf.Write(p[:half])
+		w.park()
+		w.buf.Write(p[half:])
+		return len(p), nil
+	}
 	w.writes++
 	return w.buf.Write(p)
 }
@@ -210,6 +219,7 @@ type gatedBody struct {
 	pos    int
 	gate   chan struct{}
 	atGate chan struct{}
+	park   func() // schedule exploration (sched.go): called instead of the gate
 	parked bool
 }
 
@@ -222,8 +232,12 @@ func (g *gatedBody) Read(p []byte) (int, error) {
 		limit = len(g.data) / 2
 		if g.pos >= limit {
 			g.parked = true
-			close(g.atGate)
-			<-g.gate
+			if g.park != nil {
+				g.park()
+			} else {
+				close(g.atGate)
+				<-g.gate
+			}
 			limit = len(g.data)
 		}
 	}
@@ -489,6 +503,8 @@ func (cr *concRun) finalSnapshotOf(buckets, keys []string) cEvent {
 	return ev
 }
 
+func isVersioned(b gofakes3.Backend) bool { _, ok := b.(gofakes3.VersionedBackend); return ok }
+
 func newConcRun(sysName string, versioned bool, seed int64, big bool) (*concRun, cEvent, error) {
 	return newConcRunOpts(sysName, versioned, seed, big, SysOpts{})
 }
@@ -520,7 +536,7 @@ func newConcRunOpts(sysName string, versioned bool, seed int64, big bool, so Sys
 	if sys.Single() {
 		single = concBucket
 	}
-	reset := cEvent{T: "reset", Seq: cr.next(), Cfg: Op{"versioned": sys.Versioned() && so.Wrap == nil, "paginate": sys.Paginates(), "single": single},
+	reset := cEvent{T: "reset", Seq: cr.next(), Cfg: Op{"versioned": sys.Versioned() && (so.Wrap == nil || isVersioned(sys.Backend)), "paginate": sys.Paginates(), "single": single},
 		Buckets: []string{concBucket}, Versioning: ver, Sys: sysName}
 	return cr, reset, nil
 }
